@@ -12,6 +12,28 @@ type stepGen struct {
 	r *rig
 	// profile weights what is drawn.
 	immutability bool // bias towards mutation attempts on CAS-backed files
+	// Directories (paths from the top) that two out of three steps are
+	// aimed at, e.g. a malformed directory and its parent. A path is cut
+	// where the model no longer has a directory of that name.
+	focus [][]string
+}
+
+// validPrefix returns the longest prefix of p along which the model has
+// accessible directories (the last one may be inaccessible itself).
+func (g *stepGen) validPrefix(p []string) []string {
+	cur := g.r.root
+	for i, name := range p {
+		if g.r.contentsBad(cur) {
+			return p[:i]
+		}
+		g.r.touch(cur)
+		next := g.r.get(cur, name)
+		if next == nil || next.kind != kindDir {
+			return p[:i]
+		}
+		cur = next
+	}
+	return p
 }
 
 // pickDir does a random descent from one of the action roots and returns
@@ -20,6 +42,9 @@ type stepGen struct {
 // ones). It may end in a directory whose contents are inaccessible.
 func (g *stepGen) pickDir(rt *rapid.T, label string) []string {
 	r := g.r
+	if len(g.focus) > 0 && rapid.IntRange(0, 2).Draw(rt, label+"Focus") > 0 {
+		return append([]string(nil), g.validPrefix(rapid.SampledFrom(g.focus).Draw(rt, label+"FocusPath"))...)
+	}
 	a := rapid.IntRange(0, len(r.w.actionPath)-1).Draw(rt, label+"Action")
 	p := append([]string(nil), r.w.actionPath[a]...)
 	for depth := 0; depth < 6; depth++ {
@@ -186,7 +211,7 @@ func (g *stepGen) symlink(rt *rapid.T) *step {
 	if rapid.IntRange(0, 4).Draw(rt, "existing") == 0 {
 		name = g.anyName(rt, p, isAny)
 	}
-	return &step{Op: "symlink", Path: p, Name: name, Target: rapid.SampledFrom(symlinkTargets).Draw(rt, "target")}
+	return &step{Op: "symlink", Path: p, Name: name, Target: drawSymlinkTarget(rt)}
 }
 
 func (g *stepGen) remove(rt *rapid.T) *step {
